@@ -279,6 +279,7 @@ def run(eng, rep):
     rep.explain("C13 (structural clauses): in ctrsbox_sfista/pgd/linear the list handed to dykstra is list(projections) plus, appended last, pball(., centre, radius) "
                 "of the routine's own centre and radius parameters; in Controller.trust_region_step every regularised step passes `pred_reduction < 0 => d = 0` and "
                 "pred_reduction is computed from the returned (gopt, H, d); frame agreement (T5) at all arithmetic/clamp/dykstra sites of the step routines; totality.")
+    rep.explain("Also decided: trsbox_linear's face handling is reflection-equivariant (T14, C13-5); the geometry point is centre + an output of trsbox_linear over the box relative to the centre (C13-6); the projector list may be built by a helper (parameters mapped back through the call binding).")
     rep.not_decided += ["box to 1e-12, global maximum of |c + g's| to 1e-6, ||d|| <= Delta(1+1e-8) (numerical)"]
     rep.note("C13", "dfols/trust_region.py:ctrsbox_geometry", "passes literal d_max_iters=100, d_tol=1e-10 instead of its own parameters (observation, not part of the statement)")
     rule_ball_last(eng, rep)
